@@ -18,7 +18,7 @@ func init() {
 			"(2) no decoder narrows an integer to a smaller type without a range check on the path (e.g. byte(t) for a parsed int: \"256\" would decode as 0); (3) codec pairs: each encoder/decoder pair uses matching standard-library primitives with matching constants — FormatInt(.,10)<->Atoi/ParseInt(.,10,64), FormatUint(.,10)<->ParseUint(.,10,64), bases 16 and 32 for the hex helpers, Unix()<->time.Unix(t,0), UnixNano()<->time.Unix(0,t), Duration.String<->ParseDuration, base64.RawStdEncoding both ways, Itoa+\"/\"<->Split(\"/\")+Atoi — and MarshalJSON wraps the codec output in exactly one quote at each end; (4) decode errors of the primitive are returned, never swallowed. " +
 			"NOT decided: exactness of strconv/time themselves; Atoi into int64 on 32-bit platforms (observation in the thorough tier).",
 		Assumptions: []string{"strconv, time, encoding/base64 round-trip their own formats"},
-		Floors:      map[string]int{"C20.quote-guard": 7, "C20.narrowing": 1, "C20.codec-pair": 12, "C20.quote-wrap": 6, "C20.error-returned": 7},
+		Floors:      map[string]int{"C20.quote-guard": 7, "C20.narrowing": 1, "C20.codec-pair": 12, "C20.quote-wrap": 6, "C20.error-returned": 7, "C20.dest-assigned": 8},
 		Run:         runC20,
 	})
 }
@@ -184,8 +184,15 @@ func runC20(c *Ctx) {
 			case "UnmarshalJSON":
 				c.checkQuoteGuard(fn, cons, cfg)
 				c.checkErrReturned(fn, cons, cfg)
-			case "FromString", "Scan", "UnmarshalTOML":
+				c.checkDestAssigned(fn, cons, cfg)
+			case "FromString", "UnmarshalTOML":
 				c.checkErrReturned(fn, cons, cfg)
+				c.checkDestAssigned(fn, cons, cfg)
+			case "Scan":
+				c.checkErrReturned(fn, cons, cfg)
+				if tn.Name() == "Base64Bytes" {
+					c.checkDestAssigned(fn, cons, cfg)
+				}
 			case "MarshalJSON":
 				c.checkQuoteWrap(fn, cons, cfg)
 			}
@@ -349,6 +356,39 @@ func (c *Ctx) checkErrReturned(fn *ssa.Function, cons string, cfg TraceConfig) {
 		c.holds("C20.error-returned", cons, fn.Pos(), "")
 	}
 }
+
+// checkDestAssigned: a decoder that reports success has assigned its destination on that path — otherwise
+// decoding into a reused variable silently keeps the previous value (e.g. the empty byte list).
+func (c *Ctx) checkDestAssigned(fn *ssa.Function, cons string, cfg TraceConfig) {
+	traces, complete := c.Trace(fn, cfg)
+	if !complete {
+		c.undecided("C20.dest-assigned", cons, fn.Pos(), "path budget exceeded")
+		return
+	}
+	ok, n := true, 0
+	recv := t0Key(fn)
+	for _, t := range traces {
+		if t.End != EndReturn || !t.Ret[len(t.Ret)-1].isNilConst() {
+			continue
+		}
+		n++
+		assigned := false
+		for _, e := range t.Events {
+			if e.Kind == EvStore && e.Addr.root().Key() == recv {
+				assigned = true
+			}
+		}
+		if !assigned && ok {
+			ok = false
+			c.violated("C20.dest-assigned", cons, fn.Pos(), "the decoder reports success on a path that never assigns its destination: decoding into a variable that already holds a value keeps the old value (e.g. the encoding of the empty list / zero decodes as whatever was there before)", c.witness(t, len(t.Events)-1)...)
+		}
+	}
+	if ok && n > 0 {
+		c.holds("C20.dest-assigned", cons, fn.Pos(), fmt.Sprintf("%d success paths assign the destination", n))
+	}
+}
+
+func t0Key(fn *ssa.Function) string { return "$" + fn.Params[0].Name() }
 
 // checkQuoteWrap: MarshalJSON returns append(append(append(make(...), '"'), payload...), '"')
 func (c *Ctx) checkQuoteWrap(fn *ssa.Function, cons string, cfg TraceConfig) {
